@@ -115,7 +115,8 @@ Qed.
 (* ---- THEOREM 2 ---------------------------------------------------------------------------------------- *)
 (* none of the raise statements of the walk (1 'Invalid directory record', 2 DirectoryRecord.parse,
    3 KeyError extent_to_ptr, 4 duplicate name, 5 ValueError int(version), 6 'Invalid padding on ISO',
-   7 'Directory loop on the ISO', 8 empty path table) is reached, nothing leaves the fragment, the fuel
+   7 'Directory loop on the ISO' (the walk before commit 863c802), 8 empty path table,
+   9 'Overlapping directories on the ISO') is reached, nothing leaves the fragment, the fuel
    suffices *)
 Theorem parse_rejects_nothing_valid dt t img F isz : length dt = 7%nat -> ps_tree_ok t = true ->
   master dt t = Some img -> (tsize (ms_dtree t) < F)%nat -> ms_layout_end t * BS <= isz ->
